@@ -69,7 +69,12 @@ func (s *state) Closed() bool {
 	return atomic.LoadUint32((*uint32)(s))&stateClosed != 0
 }
 func (s *state) Set(v uint32) {
-	atomic.StoreUint32((*uint32)(s), atomic.LoadUint32((*uint32)(s))|v)
+	for {
+		o := atomic.LoadUint32((*uint32)(s))
+		if atomic.CompareAndSwapUint32((*uint32)(s), o, o|v) {
+			return
+		}
+	}
 }
 func (s *state) CanRecv() bool {
 	if s.Closed() || s.RecvClosed() {
@@ -93,8 +98,12 @@ func (s *state) Shutdown() bool {
 	return atomic.LoadUint32((*uint32)(s))&stateShutdown != 0
 }
 func (s *state) Unset(v uint32) {
-	d := atomic.LoadUint32((*uint32)(s)) &^ v
-	atomic.StoreUint32((*uint32)(s), d)
+	for {
+		o := atomic.LoadUint32((*uint32)(s))
+		if atomic.CompareAndSwapUint32((*uint32)(s), o, o&^v) {
+			return
+		}
+	}
 }
 func (s *state) Replacing() bool {
 	return atomic.LoadUint32((*uint32)(s))&stateReplacing != 0
@@ -118,7 +127,12 @@ func (s *state) WakeClosed() bool {
 	return atomic.LoadUint32((*uint32)(s))&stateWakeClose != 0
 }
 func (s *state) SetLast(v uint16) {
-	atomic.StoreUint32((*uint32)(s), (uint32(v)<<16)|uint32(uint16(atomic.LoadUint32((*uint32)(s)))))
+	for {
+		o := atomic.LoadUint32((*uint32)(s))
+		if atomic.CompareAndSwapUint32((*uint32)(s), o, (uint32(v)<<16)|uint32(uint16(o))) {
+			return
+		}
+	}
 }
 func (s *state) ShutdownWait() bool {
 	return atomic.LoadUint32((*uint32)(s))&stateShutdownWait != 0
